@@ -87,6 +87,42 @@ fn filter_pointers(
         .collect()
 }
 
+fn filter_cstrings(
+    map: &HashMap<String, Vec<usize>>,
+    address: usize,
+    count: usize,
+) -> HashMap<String, Vec<usize>> {
+    let range = address..(address + count);
+    map.iter()
+        .map(|(text, cells)| {
+            let kept: Vec<usize> = cells
+                .iter()
+                .filter(|cell| !range.contains(cell))
+                .copied()
+                .collect();
+            (text.clone(), kept)
+        })
+        .filter(|(_, cells)| !cells.is_empty())
+        .collect()
+}
+
+fn adjust_cstrings(
+    map: &HashMap<String, Vec<usize>>,
+    address: usize,
+    count: usize,
+    subtract: bool,
+) -> HashMap<String, Vec<usize>> {
+    map.iter()
+        .map(|(text, cells)| {
+            let moved: Vec<usize> = cells
+                .iter()
+                .map(|cell| adjust_pointer(*cell, address, count, subtract))
+                .collect();
+            (text.clone(), moved)
+        })
+        .collect()
+}
+
 fn adjust_text<T: Clone>(
     map: &HashMap<usize, T>,
     address: usize,
@@ -618,9 +654,11 @@ impl BinArchive {
         let new_text = adjust_text(&self.text, address, amount_in_bytes, false);
         let new_labels = adjust_labels(&self.labels, address, amount_in_bytes, false, ge);
         let new_pointers = adjust_pointers(&self.pointers, address, amount_in_bytes, false, ge);
+        let new_cstrings = adjust_cstrings(&self.cstrings, address, amount_in_bytes, false);
         self.text = new_text;
         self.labels = new_labels;
         self.pointers = new_pointers;
+        self.cstrings = new_cstrings;
         Ok(())
     }
 
@@ -639,9 +677,12 @@ impl BinArchive {
         let new_text = adjust_text(&filtered_text, address, amount_in_bytes, true);
         let new_labels = adjust_labels(&filtered_labels, address, amount_in_bytes, true, ge);
         let new_pointers = adjust_pointers(&filtered_pointers, address, amount_in_bytes, true, ge);
+        let filtered_cstrings = filter_cstrings(&self.cstrings, address, amount_in_bytes);
+        let new_cstrings = adjust_cstrings(&filtered_cstrings, address, amount_in_bytes, true);
         self.text = new_text;
         self.labels = new_labels;
         self.pointers = new_pointers;
+        self.cstrings = new_cstrings;
         Ok(())
     }
 
